@@ -92,10 +92,19 @@ mod verif_comment {
     // dispatch: only unignored single-line comments / directives are rewritten; counters are never written
     #[kani::proof]
     #[kani::unwind(8)]
-    fn comment_dispatch() {
+    fn comment_dispatch_line() {
+        dispatch(true);
+    }
+
+    #[kani::proof]
+    #[kani::unwind(8)]
+    fn comment_dispatch_directive() {
+        dispatch(false);
+    }
+
+    fn dispatch(line_shape: bool) {
         let tt: TokenType = kani::any();
         let ignored: bool = kani::any();
-        let line_shape: bool = kani::any();
         let text = if line_shape { "//x" } else { "{$i+}" };
         let mut toks = [Token::new_ref(text, 0, tt)];
         let mut ft = FormattedTokens::verif_new(&mut toks, vec![FormattingData::verif_new(ignored, 1, 2, 3, 4)]);
@@ -104,8 +113,8 @@ mod verif_comment {
         let is_dir = matches!(tt, TokenType::CompilerDirective | TokenType::ConditionalDirective(_));
         let (tok, fmt) = ft.get_token(0).unwrap();
         let c = tok.get_content().as_bytes();
-        kani::cover!(is_lc && !ignored && line_shape, "line comment rewritten");
-        kani::cover!(is_dir && !ignored && !line_shape, "directive rewritten");
+        kani::cover!((is_lc || is_dir) && !ignored, "token of a kind that is normalised");
+        kani::cover!(ignored, "ignored token");
         if line_shape {
             assert!((c.len() == 4) == (is_lc && !ignored), "OB rewriters/comment_dispatch: only unignored single-line comments get the line-comment normalisation");
             assert!(c.len() == 4 || c.len() == 3, "OB rewriters/comment_dispatch: only unignored single-line comments get the line-comment normalisation");
